@@ -236,6 +236,20 @@ class Verifier:
             for o in obls.values():
                 if o.status == "discharged":
                     o.status, o.detail = "undecided", f"list shapes could not be aligned: {str(sm)[:300]}"
+        except (KeyboardInterrupt, SystemExit):
+            raise
+        except Exception as e:  # noqa
+            # the encoder or a library model met a situation it was not written for (typically: changed code hands a
+            # value of an unexpected kind to a modelled library call).  Nothing is decided for this function; the
+            # check goes on (an encoder error on the unchanged tree shows up as undecided obligations just the same).
+            import traceback
+            tb = traceback.extract_tb(e.__traceback__)
+            where = f"{tb[-1].filename.split('/')[-1]}:{tb[-1].lineno}" if tb else "?"
+            ex.no_contract_for = None
+            for o in obls.values():
+                if o.status == "discharged":
+                    o.status = "undecided"
+                    o.detail = f"encoder error ({type(e).__name__}: {str(e)[:160]} at {where}): nothing decided"
         if feasible_paths == 0 and all(o.status == "discharged" for o in obls.values()):
             o = ob("reachable")
             o.status, o.detail = "undecided", "no feasible path: vacuous contract (checker problem)"
